@@ -4,7 +4,10 @@ use std::fmt;
 use std::ops::Deref;
 use std::pin::Pin;
 use std::ptr::NonNull;
+#[cfg(not(folo_verif_loom))]
 use std::sync::Arc;
+#[cfg(folo_verif_loom)]
+use loom::sync::Arc;
 
 use crate::{BlindPoolCore, BlindPooledMut, LayoutKey, NEVER_POISONED, RawPooled, RawPooledMut};
 
